@@ -42,6 +42,8 @@ func checkC07(c *Ctx, r *Report) {
 	ttlNoWrap(c, r, "C07.R3.ttl-no-wrap")
 	rfc3597Whole(c, r, "C07.R3.rfc3597-whole")
 	c07RdataErrorRebuild(c, r, "C07.R5.error-position")
+	c07FalseIsEOF(c, r, "C07.R3.sticky")
+	parseNarrowing(c, r, "C07.R3.parse-narrowing")
 }
 
 var fileOpeners = map[string]bool{"os.Open": true, "os.OpenFile": true, "os.ReadFile": true, "os.Create": true, "fs.ReadFile": true, "ioutil.ReadFile": true, "os.ReadDir": true, "(fs.FS).Open": true, "(io/fs.FS).Open": true}
